@@ -45,16 +45,21 @@ def check(run):
         run, res, "trace/Trace_Json", "c07.ndjson", max_lines=120000,
         slim=lambda e: {k: v for k, v in e.items() if k not in ("bytes", "frame_b", "df", "icao", "tdf", "ticao", "dupkeys")})
     st = res["stats"]
-    per = _report(run, rejected, res)
+    # position-attached records (cpr::decode_positions on timed records), same clauses
+    rej_pos, pos = dp.position_records(run, run.tier == "thorough")
+    per = _report(run, rejected + rej_pos, res)
     run.cov.update({
-        "evaluations": n_events,
+        "evaluations": n_events + pos["validated"],
         "distinct_nontrivial": st["distinct_accepted"],
         "rule": "the decode pass of C01 (every shape of the TLC-enumerated shape space x fills x field extremes"
                 + (" x 16-bit windows of the MB field of the Comm-B shapes" if res["tier"]["windows"] else "")
                 + "); every accepted message is serialised as Message and as TimedMessage, lexed by the harness, "
                   "the hex of `frame` decoded again. One evaluation = one accepted frame judged by Trace_Json.tla. "
                   "distinct_nontrivial = distinct accepted byte strings (64-bit hash); the shape space is covered "
-                  "exhaustively, the remaining bits are sampled.",
+                  "exhaustively, the remaining bits are sampled. Plus the position-attached family: TLC-generated "
+                  "(CPR.tla) even/odd airborne and surface histories at special latitudes (85..90 deg both hemispheres, "
+                  "poles, equator, NL transitions, +-180 deg), run through cpr::decode_positions as TimedMessages and "
+                  "judged by the same clauses (except the text comparison of the re-decoded frame).",
         "samples": [{"hex": e["hex"], "cls": e["cls"], "df": bytes(e["df"]).decode(), "icao24": bytes(e["icao"]).decode(),
                      "ser": e["ser"], "re_out": e["re_out"]} for e in samples],
         "exhaustive": False,
@@ -64,6 +69,9 @@ def check(run):
         "frames": res["frames"],
         "accepted": st["accepted"],
         "serde_errors": st["ser_errs"],
+        "position_records": {k: v for k, v in pos.items() if k != "samples"},
+        "position_record_samples": pos.get("samples", [])[:2],
+        "rejected_position_records": len(rej_pos),
         "rejected_events": len(rejected),
         "rejected_per_clause_df_tc_subtype": {"/".join(map(str, k)): v for k, v in sorted(per.items())},
         "traces_validated_against_impl": len(results),
@@ -79,6 +87,8 @@ def check(run):
         "finite: NaN/Infinity tokens in the text, plus every float of the serialised struct re-read by the probe serializer "
         "(serde_json writes non-finite floats as null); Option::None is not a number and is never flagged",
         "the JSON lexer of the harness is trusted",
+        "position-attached records: a panic of cpr::decode_positions is counted (decode_positions_panics) but is C04/C06's "
+        "business; the records are judged as they are after the call",
     ]
 
 
